@@ -24,20 +24,20 @@ theorem LogOK.ext {P : Params} {T : List (Ev (Op P))} {m : Msg} (h : LogOK P T m
 
 /-- unforgeability at work: a verified signed part listing a correct operator is reflected in the trace -/
 theorem backed_event {P : Params} {T : List (Ev (Op P))} {log : List Msg} (hlog : ∀ m ∈ log, LogOK P T m)
-    {b : Base} (hb : backed P log b = true) (hs : b.sigOk = true) (j : Op P) (hj : P.honest j = true)
-    (hmem : opId j ∈ b.signers) :
+    {b : Base} (hb : backed P log b = true) (hs : b.sigOk = true) (hid : b.ident = ownIdent) (j : Op P)
+    (hj : P.honest j = true) (hmem : opId j ∈ b.signers) :
     b.height = P.height ∧ (b.type = tPrepare → Ev.P j b.round b.root ∈ T) ∧
     (b.type = tCommit → Ev.K j b.round b.root ∈ T) ∧
     (b.type = tRoundChange → Ev.RC j b.round b.dataRound b.root ∈ T) := by
   unfold backed at hb
-  simp only [hs, Bool.not_true, Bool.false_or, List.all_eq_true, Bool.or_eq_true, Bool.not_eq_true',
+  simp only [hs, hid, bne_self_eq_false, Bool.not_true, Bool.false_or, List.all_eq_true, Bool.or_eq_true, Bool.not_eq_true',
     List.any_eq_true] at hb
   rcases hb (opId j) hmem with h | ⟨m', hm', hsame⟩
   · rw [(honestId_iff P j).2 hj] at h; exact absurd h (by simp)
   · obtain ⟨i, _, h2, h3, h4, h5, h6⟩ := hlog m' hm'
     unfold sameSigned at hsame
     simp only [Bool.and_eq_true, beq_iff_eq] at hsame
-    obtain ⟨⟨⟨⟨⟨e1, e2⟩, e3⟩, e4⟩, e5⟩, e6⟩ := hsame
+    obtain ⟨⟨⟨⟨⟨⟨e1, e2⟩, e3⟩, e4⟩, e5⟩, e6⟩, _⟩ := hsame
     have hij : i = j := by
       rw [h2] at e1
       exact opId_inj (by simpa using e1)
